@@ -570,5 +570,180 @@ theorem signBad_false_iff {d pt} : signBad d pt = false ↔ SignOk d pt := by
   | none => simp
   | some t => cases h : t.empty <;> simp [h]
 
+/-! ## additions of the depth round (compositions for geometry 2, displayed coordinates) -/
+
+/-- the number in a cell, 0 for NaN (and for a string, which `cstrVals` refuses) -/
+def numOr0 : Cell → Rat
+  | .num q => q
+  | _ => 0
+
+/-- the coefficient a constraint row (cells `row` under the column labels `cols`) gives to the
+    sensor called `s`: the number under the column labelled `s`, 0 for NaN or when the sheet
+    has no such column -/
+def coefAt (cols : List String) (row : List Cell) (s : String) : Rat :=
+  numOr0 (((cols.zip row).lookup s).getD (.num 0))
+
+/-- … for a name as the code carries it (the NaN of an unfilled name cell has no column) -/
+def coefName (cols : List String) (row : List Cell) : Name → Rat
+  | some s => coefAt cols row s
+  | none => 0
+
+/-- the component of the mode shape that belongs to the sensor called `s`
+    (`dict(zip(sens_names, phi))[s]`, 0 if there is no such sensor) -/
+def phiAt (names : List Name) (phi : List Rat) (s : String) : Rat :=
+  (dictGet (names.zip phi) (some s)).getD 0
+
+theorem numOr0_fill0 (c : Cell) : numOr0 (fill0Cell c) = numOr0 c := by
+  cases c <;> rfl
+
+theorem lookup_zip_map {β γ} (f : β → γ) (keys : List String) (vals : List β) (s : String) :
+    (keys.zip (vals.map f)).lookup s = ((keys.zip vals).lookup s).map f := by
+  induction keys generalizing vals with
+  | nil => simp
+  | cons a t ih =>
+    cases vals with
+    | nil => simp
+    | cons v vs =>
+      simp only [List.map_cons, List.zip_cons_cons, List.lookup_cons]
+      cases s == a <;> simp [ih]
+
+theorem dot_cons (x : Rat) (xs : List Rat) (p : Rat) (ps : List Rat) :
+    dot (x :: xs) (p :: ps) = x * p + dot xs ps := by
+  simp [dot, List.zipWith, List.sum_cons]
+
+theorem dot_nil_right (xs : List Rat) : dot xs [] = 0 := by
+  cases xs <;> simp [dot]
+
+theorem dot_nil_left (ps : List Rat) : dot [] ps = 0 := by
+  simp [dot]
+
+theorem dot_map_zero {α} (l : List α) (phi : List Rat) : dot (l.map fun _ => (0 : Rat)) phi = 0 := by
+  induction l generalizing phi with
+  | nil => exact dot_nil_left _
+  | cons a t ih =>
+    cases phi with
+    | nil => exact dot_nil_right _
+    | cons p ps => rw [List.map_cons, dot_cons, ih]; grind
+
+/-- scaling the mode shape scales every constraint combination -/
+theorem dot_scale (nums phi : List Rat) (c : Rat) : dot nums (phi.map (· * c)) = dot nums phi * c := by
+  induction nums generalizing phi with
+  | nil => simp [dot_nil_left]
+  | cons x xs ih =>
+    cases phi with
+    | nil => simp [dot_nil_right]
+    | cons p ps => rw [List.map_cons, dot_cons, dot_cons, ih]; grind
+
+theorem dictGet_none_of_not_mem {κ β} [BEq κ] [LawfulBEq κ] (l : List (κ × β)) (k : κ)
+    (h : ∀ p ∈ l, p.1 ≠ k) : dictGet l k = none := by
+  unfold dictGet
+  rw [List.lookup_eq_none_iff]
+  intro p hp
+  have := h p (List.mem_reverse.1 hp)
+  simpa using fun e => this e.symm
+
+/-- the keys of `cstrVals` are constraint names -/
+theorem cstrVals_keys {cs : Tbl} {phi : List Rat} {cons : List (String × Rat)} (h : cstrVals cs phi = .ok cons) :
+    ∀ p ∈ cons, p.1 ∈ cs.index := by
+  unfold cstrVals at h
+  split at h
+  · cases h
+  · split at h
+    · cases h
+    · cases h
+      intro p hp
+      exact (List.of_mem_zip hp).1
+
+/-- changing the coefficient of one (present, unique) key changes the product by that
+    coefficient times the key's component -/
+theorem dot_update (names : List Name) (phi : List Rat) (key : Name) (a : Rat) (g : Name → Rat)
+    (hl : phi.length = names.length) (hn : names.Nodup) (hk : key ∈ names) (hg : g key = 0) :
+    dot (names.map fun n => if n = key then a else g n) phi =
+      a * (dictGet (names.zip phi) key).getD 0 + dot (names.map g) phi := by
+  induction names generalizing phi with
+  | nil => cases hk
+  | cons n0 ns ih =>
+    cases phi with
+    | nil => simp at hl
+    | cons p0 ps =>
+      rw [List.nodup_cons] at hn
+      have hl' : ps.length = ns.length := by simpa using hl
+      rw [List.map_cons, List.map_cons, dot_cons, dot_cons]
+      by_cases h0 : n0 = key
+      · subst h0
+        have hd : dictGet ((n0 :: ns).zip (p0 :: ps)) n0 = some p0 := by
+          have := dictGet_zip (n0 :: ns) (p0 :: ps) 0 n0 (by simpa using hl') (List.nodup_cons.2 hn) (by simp)
+          simpa using this
+        have hm : (ns.map fun n => if n = n0 then a else g n) = ns.map g := by
+          apply List.map_congr_left
+          intro n hn'
+          have : n ≠ n0 := by rintro rfl; exact hn.1 hn'
+          simp [this]
+        rw [hd, hm, hg]
+        simp only [if_true, Option.getD_some]
+        grind
+      · have hk' : key ∈ ns := by
+          cases hk with
+          | head => exact absurd rfl h0
+          | tail _ m => exact m
+        obtain ⟨k, hkk⟩ := List.mem_iff_getElem?.1 hk'
+        have hd1 := dictGet_zip (n0 :: ns) (p0 :: ps) (k + 1) key (by simpa using hl') (List.nodup_cons.2 hn) (by simpa using hkk)
+        have hd2 := dictGet_zip ns ps k key hl' hn.2 hkk
+        rw [ih ps hl' hn.2 hk', hd1, hd2]
+        simp only [h0, if_false, List.getElem?_cons_succ]
+        grind
+
+/-- **re-ordering to the order of the names, then multiplying position by position, is the
+    label-wise linear combination**: the product of the row `names.map (coefficient under the
+    column labelled like the name)` with the shape equals the sum, over the columns of the
+    sheet, of the coefficient times the component of the sensor the column is labelled with. -/
+theorem dot_reordered (names : List Name) (phi : List Rat) (cols : List String) (row : List Cell)
+    (hl : phi.length = names.length) (hn : names.Nodup) (hc : cols.Nodup)
+    (hsub : ∀ c ∈ cols, some c ∈ names) :
+    dot (names.map (coefName cols row)) phi =
+      ((cols.zip row).map fun p => numOr0 p.2 * phiAt names phi p.1).sum := by
+  induction cols generalizing row with
+  | nil =>
+    have : coefName [] row = fun _ => (0 : Rat) := by
+      funext n; cases n <;> simp [coefName, coefAt, numOr0]
+    rw [this, dot_map_zero]; simp
+  | cons c cs ih =>
+    cases row with
+    | nil =>
+      have : coefName (c :: cs) [] = fun _ => (0 : Rat) := by
+        funext n; cases n <;> simp [coefName, coefAt, numOr0]
+      rw [this, dot_map_zero]; simp
+    | cons x xs =>
+      rw [List.nodup_cons] at hc
+      have hf : coefName (c :: cs) (x :: xs) = fun n => if n = some c then numOr0 x else coefName cs xs n := by
+        funext n
+        cases n with
+        | none => simp [coefName]
+        | some s =>
+          simp only [coefName, coefAt, List.zip_cons_cons, List.lookup_cons, Option.some.injEq]
+          by_cases hs : s = c
+          · subst hs; simp
+          · have : (s == c) = false := by simpa using hs
+            simp [this, hs]
+      have hg : coefName cs xs (some c) = 0 := by
+        simp only [coefName, coefAt]
+        have : (cs.zip xs).lookup c = none := by
+          rw [List.lookup_eq_none_iff]
+          intro p hp
+          have := (List.of_mem_zip hp).1
+          simpa using fun e : c = p.1 => hc.1 (e ▸ this)
+        rw [this]; rfl
+      rw [hf, dot_update names phi (some c) (numOr0 x) (coefName cs xs) hl hn (hsub c List.mem_cons_self) hg,
+        ih xs hc.2 (fun c' h' => hsub c' (List.mem_cons_of_mem _ h'))]
+      simp [phiAt, List.sum_cons]
+
+theorem arrowTip_get (b d : List Cell) (p sc : Rat) (j : Nat) (x y : Rat)
+    (hb : b[j]? = some (.num x)) (hd : d[j]? = some (.num y)) :
+    (arrowTip b d p sc)[j]? = some (some (x + (y * p) * sc)) := by
+  simp [arrowTip, List.getElem?_zipWith, hb, hd, cellVal]
+
+/-- with the columns labelled `x, y, z` in that order the selection keeps a 3-cell row -/
+theorem selRow_xyz (a b c : Cell) : selRow ["x", "y", "z"] [a, b, c] = [a, b, c] := by
+  simp [selRow, List.lookup]
 
 end PV.Geo
